@@ -12,7 +12,10 @@ RULE = ("every genome of <= 3 (thorough: 4) contigs, plus one ignored and one un
         "chunkings of the entries (quick: unchunked, one entry per chunk, one random cut set; thorough: every cut set for <= 5 "
         "entries) x each consumer: list(iter_chromosomes), zip of two iter_chromosomes, Genome.get_intervals(stream) evaluated "
         "through get_mask().get_data() / compute(), Genome.get_track(stream), MultiStream attribute alone and zipped with a "
-        "second stream and the lengths, forbes, jaccard, left_join. Names with '_' both ignored (default filter) and included "
+        "second stream and the lengths, forbes, jaccard, left_join. Key columns both as identifiers (Interval) and as `str`-typed "
+        "ragged columns of a user dataclass (tests/test_multistream.py style), with contig sets where one name is a proper prefix "
+        "of the next (chr1/chr10, c/ch/chr, chr1/chr1_alt) and the switch between them inside a chunk as well as on a chunk "
+        "border (every chunk a fresh table). Names with '_' both ignored (default filter) and included "
         "(filter disabled). Non-trivial = data order differs from genome order, or an unknown / ignored / absent contig")
 EXHAUSTIVE = {"quick": False, "thorough": False}
 MODEL_OPS = {"iter", "iter_zip", "genome_mask", "genome_compute", "track", "ms", "ms_zip", "jaccard", "forbes", "left_join"}
@@ -39,7 +42,9 @@ MANIFEST = {
             "SynchedStream whether or not it ever pulls again (…_any_consumer), and for the modelled zip consumer itself: if zip over "
             "any list of iterators completes with one row per contig then every iter_chromosomes / SynchedStream column, in any "
             "operand position, is its stream's specification (zip_columns_complete: streamable, forbes, jaccard, the computation "
-            "graph); every chunking of the entries gives the same group sequence (groups_chunking). The shipped rules are refuted in "
+            "graph); every chunking of the entries gives the same group sequence (groups_chunking); the ragged change-point detection marks "
+            "a boundary exactly when two adjacent names differ, prefix pairs included (ragged_change_iff, with the witness for the "
+            "rule without the length comparison). The shipped rules are refuted in "
             "Lean with witnesses: a mis-ordered stream that is not the first argument of zip (or a single data stream behind the "
             "chromosome-name stream of the computation graph) completes silently, and included names containing '_' are skipped. "
             "Obligations regenerated from the running code every run: chromosome_order covers every included name, both "
@@ -168,18 +173,43 @@ def model_request(c):
 
 # ------------------------------------------------------------------ implementation
 
+_STR_KEYED = None
+_CUR_KEY = "id"
+
+
+def _str_keyed():
+    """a user dataclass whose grouping column is `str`-typed (a ragged EncodedRaggedArray, as in tests/test_multistream.py)"""
+    global _STR_KEYED
+    if _STR_KEYED is None:
+        from bionumpy.bnpdataclass import bnpdataclass
+
+        @bnpdataclass
+        class StrKeyed:
+            chromosome: str
+            start: int
+            stop: int
+        _STR_KEYED = StrKeyed
+    return _STR_KEYED
+
+
+def _table_class():
+    from bionumpy.datatypes import Interval
+    return _str_keyed() if _CUR_KEY == "str" else Interval
+
+
 def _mk_stream(stream, kind="interval"):
     from bionumpy.datatypes import Interval, BedGraph
     from bionumpy.streams import NpDataclassStream
     out = []
-    for ch in _chunks(stream):
+    cls = BedGraph if kind == "bedgraph" else _table_class()
+    for ch in _chunks(stream):                     # every chunk is built as a fresh table
         names = [n for n, _ in ch]
         s = np.array([i for _, i in ch], dtype=int)
         if kind == "bedgraph":
             out.append(BedGraph(names, s, s + 1, s + 1))
         else:
-            out.append(Interval(names, s, s + 1))
-    return NpDataclassStream(iter(out), BedGraph if kind == "bedgraph" else Interval)
+            out.append(cls(names, s, s + 1))
+    return NpDataclassStream(iter(out), cls)
 
 
 def _ids(table):
@@ -218,14 +248,16 @@ def _genome(c):
 def _call(c):
     import bionumpy as bnp
     from bionumpy.datatypes import Interval, BedGraph
+    global _CUR_KEY
     op = c["op"]
     st = c["streams"]
+    _CUR_KEY = c.get("key", "id")
     if op == "iter":
-        return {"out": [_ids(t) for t in _ctx(c).iter_chromosomes(_mk_stream(st[0]), Interval)]}
+        return {"out": [_ids(t) for t in _ctx(c).iter_chromosomes(_mk_stream(st[0]), _table_class())]}
     if op == "iter_zip":
         ctx = _ctx(c)
-        a = ctx.iter_chromosomes(_mk_stream(st[0]), Interval)
-        b = ctx.iter_chromosomes(_mk_stream(st[1]), Interval)
+        a = ctx.iter_chromosomes(_mk_stream(st[0]), _table_class())
+        b = ctx.iter_chromosomes(_mk_stream(st[1]), _table_class())
         return {"rows": [[_ids(x), _ids(y)] for x, y in zip(a, b)]}
     if op == "genome_mask":
         gi = _genome(c).get_intervals(_mk_stream(st[0]))
@@ -420,6 +452,8 @@ def _cut_sets(n_entries, tier, rng):
 
 
 SINGLE = ["iter", "genome_mask", "genome_compute", "track", "ms", "left_join"]
+STR_OPS = {"iter", "genome_mask", "ms", "left_join", "iter_zip", "ms_zip", "jaccard", "forbes"}
+PREFIX_GENOMES = [["chr1", "chr10", "chr2"], ["chr1", "chr10", "chr100"], ["c", "ch", "chr"], ["chr2", "chr1", "chr11"]]
 DOUBLE = ["iter_zip", "ms_zip", "jaccard", "forbes"]
 
 
@@ -451,6 +485,9 @@ def cases(tier, rng):
                         if not big and op in ("genome_compute", "track") and cuts and rng.random() < 0.5:
                             continue
                         yield {"names": names, "filt": filt, "op": op, "streams": [s]}
+                        if op in STR_OPS:
+                            # the same with a `str`-typed (ragged) key column: chr1 / chr1_alt are a prefix pair
+                            yield {"names": names, "filt": filt, "op": op, "streams": [s], "key": "str"}
     # 2. two streams: every pair of orders over <= 3 contigs (+ unknown), a few chunkings
     contigs = ["chr1", "chr2", "chr3"]
     pool = contigs + [UNK]
@@ -464,6 +501,23 @@ def cases(tier, rng):
         sb = {"groups": gb, "cuts": rng.choice(_cut_sets(sum(len(i) for _, i in gb), "quick", rng))}
         for op in DOUBLE:
             yield {"names": contigs, "filt": True, "op": op, "streams": [sa, sb]}
+    # 2b. contig names where one is a proper prefix of the next, `str`-typed and identifier key columns, every cut set
+    #     (the switch between the prefix pair inside a chunk as well as on a chunk border), all consumers
+    for contigs in PREFIX_GENOMES:
+        seqs3 = [q for q in _group_sequences(contigs + [UNK], 3)]
+        for seq in (seqs3 if big else [q for q in seqs3 if len(q) >= 2]):
+            groups = _with_ids(seq, rng)
+            n_e = sum(len(ids) for _, ids in groups)
+            for cuts in _cut_sets(n_e, "thorough" if n_e <= 4 else tier, rng):
+                s1 = {"groups": groups, "cuts": cuts}
+                for key in ("str", "id"):
+                    for op in ("iter", "ms", "left_join", "genome_mask"):
+                        yield {"names": contigs, "filt": True, "op": op, "streams": [s1], "key": key}
+                    if not cuts or big:
+                        other = {"groups": _with_ids([c for c in contigs if rng.random() < 0.6], rng), "cuts": []}
+                        for op in DOUBLE:
+                            yield {"names": contigs, "filt": True, "op": op, "streams": [s1, other], "key": key}
+                            yield {"names": contigs, "filt": True, "op": op, "streams": [other, s1], "key": key}
     # 3. two-contig genomes where the mis-ordered group follows the LAST contig (the silent position)
     for a in _group_sequences(["chr1", "chr2", UNK], 3):
         for b in _group_sequences(["chr1", "chr2", UNK], 3):
